@@ -5,6 +5,7 @@ import (
 	"runtime/debug"
 	"sort"
 	"strings"
+	"time"
 
 	"github.com/awslabs/ar-go-tools/analysis/config"
 	"github.com/awslabs/ar-go-tools/analysis/taint"
@@ -13,10 +14,10 @@ import (
 
 // Pair is a canonical (source site, sink site) pair: lines in the main file (0 = no position).
 type Pair struct {
-	SrcFile string
-	Src     int
+	SrcFile  string
+	Src      int
 	SinkFile string
-	Sink    int
+	Sink     int
 }
 
 func (p Pair) String() string {
@@ -28,12 +29,12 @@ func (p Pair) String() string {
 
 // TaintOutcome is the canonicalised result of one taint.Analyze call.
 type TaintOutcome struct {
-	Pairs    map[Pair]bool
-	Escapes  map[int]bool // source lines reported as escaping
-	Err      error        // error returned by Analyze
-	Panic    string       // non-empty if Analyze panicked (value + stack)
-	Log      string
-	Result   taint.AnalysisResult
+	Pairs   map[Pair]bool
+	Escapes map[int]bool // source lines reported as escaping
+	Err     error        // error returned by Analyze
+	Panic   string       // non-empty if Analyze panicked (value + stack)
+	Log     string
+	Result  taint.AnalysisResult
 }
 
 // PairList returns the sorted pair strings.
@@ -63,8 +64,16 @@ func posOf(prog *ssa.Program, i ssa.Instruction) (string, int) {
 
 // RunTaint runs taint.Analyze under recover and canonicalises the flows.
 func RunTaint(cfg *config.Config, l *Loaded) *TaintOutcome {
+	return runTaint(cfg, l, true)
+}
+
+func runTaint(cfg *config.Config, l *Loaded, capture bool) *TaintOutcome {
 	out := &TaintOutcome{Pairs: map[Pair]bool{}, Escapes: map[int]bool{}}
-	out.Log = CaptureStdout(func() {
+	wrap := func(f func()) string { f(); return "" }
+	if capture {
+		wrap = CaptureStdout
+	}
+	out.Log = wrap(func() {
 		defer func() {
 			if r := recover(); r != nil {
 				out.Panic = fmt.Sprintf("%v\n%s", r, debug.Stack())
@@ -93,6 +102,24 @@ func RunTaint(cfg *config.Config, l *Loaded) *TaintOutcome {
 		}
 	}
 	return out
+}
+
+// RunTaintBudget is RunTaint with a wall-clock budget. Go cannot stop a goroutine: when the budget is exceeded the
+// analysis keeps running in the background (and keeps a core busy); the caller gets nil and must treat the case as
+// "slow / suspected divergence", never as a property verdict.
+func RunTaintBudget(cfg *config.Config, l *Loaded, budget time.Duration) *TaintOutcome {
+	ch := make(chan *TaintOutcome, 1)
+	go func() { ch <- runTaint(cfg, l, false) }() // no stdout capture: a leaked run must not hold the capture lock
+	select {
+	case o := <-ch:
+		return o
+	case <-time.After(budget):
+		return nil
+	}
+}
+
+func configFromYAML(yaml string) (*config.Config, error) {
+	return config.Load("verif-config.yaml", []byte(yaml))
 }
 
 // MustConfig parses a YAML config text; a parse error is a harness bug.
